@@ -270,10 +270,20 @@ pub fn exec(rest: &str, out: &mut Out) -> (String, bool) {
     let mut spec: Spec = Vec::new();
     let mut parts = Vec::new();
     let mut dups = false;
-    for op in ops {
+    for (opi, op) in ops.iter().enumerate() {
         match step(&mut o, &mut spec, op, out) {
             None => return ("bad-op".into(), false),
             Some((res, want)) => {
+                // flag `x` (scale histories): the full state is reported after the last operation only;
+                // the list-model oracles still run after every operation
+                if flags.contains('x') && opi + 1 < ops.len() {
+                    out.oracle(res == want, "operation result = documented list semantics", || format!("op {}: impl {} / list model {}", op, res, want));
+                    let same = o.len() == spec.len() && o.entries().iter().zip(spec.iter()).all(|(e, s)| e.key.as_str() == s.0 && e.value == s.1);
+                    out.oracle(same, "entries = plain ordered list under the same operations", || format!("after op #{} {}", opi, op.chars().take(40).collect::<String>()));
+                    if positions_has_dup(&spec) { dups = true; }
+                    parts.push(res);
+                    continue;
+                }
                 out.oracle(res == want, "operation result = documented list semantics", || format!("op {}: impl {} / list model {}", op, res, want));
                 let same = o.len() == spec.len() && o.entries().iter().zip(spec.iter()).all(|(e, s)| e.key.as_str() == s.0 && e.value == s.1);
                 out.oracle(same, "entries = plain ordered list under the same operations", || format!("after {}: impl {} / list model {}", op, show_obj(&o), show_entries(spec.iter().map(|e| (e.0.as_str(), &e.1)))));
@@ -373,6 +383,32 @@ pub fn gen(out: &mut Out, thorough: bool, focus: &str) {
     }
     out.count_n("seeded_prefix_histories", lines.len() as u64);
     for s in lines.drain(..) { l(s, out); }
+    // SCALE: keys as long as 2^8, 2^12, 2^16 bytes (hash of a truncated / capped key, inline buffers,
+    // length counters), many occurrences of one key, many distinct keys — with every query after every
+    // operation (flag q) for the long keys
+    {
+        let mut nh = 0u64;
+        for klen in (if thorough { &[255usize, 256, 257, 4095, 4096, 4097, 5000, 65535, 65536, 65537, 100000][..] } else { &[256usize, 4096, 4097, 5000, 65537][..] }) {
+            for unit in ["6b", "e9"] {
+                let (k, k2, k3) = (format!("{}*{}", unit, klen), format!("{}*{}.78", unit, klen), format!("{}*{}", unit, klen - 1));
+                l(format!("obj qb push:{k}:n push:{k2}:t push:{k}:#31; push:{k3}:f ins:{k}:t:9 push:{k}:n push:{k}:f rm:{k2}:9 insf:{k}:f:1 rmu:{k3} goi:{k}:t getmut:{k2}:n rm:{k}:0 rmat:0 push:{k}:t sort", k = k, k2 = k2, k3 = k3), out);
+                l(format!("obj qb new:{k}=n,{k2}=t,{k}=f,{k3}=n ins:{k}:t:0 rm:{k}:9 push:{k2}:n rmu:{k2} ext:{k}=t,{k3}=f", k = k, k2 = k2, k3 = k3), out);
+                nh += 2;
+            }
+        }
+        for count in (if thorough { &[255usize, 256, 257, 4095, 4096, 4097, 5000, 9000][..] } else { &[257usize, 4097, 5000][..] }) {
+            // `count` occurrences of one key among a few others, then removals inside the run
+            let mut ops_s: Vec<String> = (0..*count).map(|i| if i % 1000 == 999 { format!("push:7a:#{:x};", 0x30 + i % 10) } else { format!("push:6b:#{:x};", 0x30 + i % 10) }).collect();
+            ops_s.push(format!("rmat:{}", count / 2)); ops_s.push("rmat:3".into()); ops_s.push(format!("rmat:{}", count - 5)); ops_s.push("ins:6b:t:1".into()); ops_s.push("push:6b:n".into()); ops_s.push("rm:7a:9".into()); ops_s.push("goi:6b:f".into()); ops_s.push("rmu:6b".into()); ops_s.push("rm:6b:9".into());
+            l(format!("obj xqb {}", ops_s.join(" ")), out);
+            // `count` distinct keys, then removals, re-insertions and a sort
+            let mut ops_s: Vec<String> = (0..*count).map(|i| format!("push:6b.{:x}:#31;", 0x100 + i)).collect();
+            ops_s.push(format!("rmat:{}", count / 2)); ops_s.push("rmat:0".into()); ops_s.push(format!("rm:6b.{:x}:9", 0x100 + count - 1)); ops_s.push(format!("ins:6b.{:x}:t:9", 0x100 + count / 3)); ops_s.push(format!("push:6b.{:x}:f", 0x100 + count / 3)); ops_s.push(format!("goi:6b.{:x}:n", 0x100 + count - 2)); ops_s.push(format!("rmu:6b.{:x}", 0x100 + 1)); ops_s.push("sort".into()); ops_s.push(format!("rm:6b.{:x}:9", 0x100 + count / 3));
+            l(format!("obj xb {}", ops_s.join(" ")), out);
+            nh += 2;
+        }
+        out.count_n("scale_histories", nh);
+    }
     // long random histories over many keys (several growth/rehash cycles of the table)
     let n_long = if thorough { 400 } else { 60 };
     for h in 0..n_long {
